@@ -1,7 +1,7 @@
 (** C15 – untrusted input never crashes the server; polynomial cost; resolver panics contained;
     cancelled one-shot requests return.  Statements only; proofs are in GqlTyping/Proofs*.v. *)
 From Coq Require Import List ZArith String Bool Arith.
-From Thunder Require Import Lib.Json GqlTyping.Types GqlTyping.Parse GqlTyping.ProofsParse GqlTyping.ProofsCost GqlTyping.ProofsExec GqlTyping.ProofsCostPrepare
+From Thunder Require Import Lib.Json GqlTyping.Types GqlTyping.Parse GqlTyping.ProofsParse GqlTyping.ProofsCost GqlTyping.ProofsExec GqlTyping.ProofsCostPrepare GqlTyping.ProofsCostExplicit
      GqlTyping.Conn GqlTyping.ProofsConn GqlTyping.OneShot GqlTyping.ProofsOneShot.
 Import ListNotations.
 Open Scope string_scope.
@@ -62,6 +62,27 @@ Theorem prepare_cost_repaired_polynomial :
     n <= kcost sch * (1 + items_size (q_sel q) + List.length sch * ftable_size (q_frags q)).
 Proof. exact (fun sch root q n => prepare_memo_cost repaired sch root q n eq_refl). Qed.
 Print Assumptions prepare_cost_repaired_polynomial.
+
+(** The same bounds in the size of the INPUT.  Parse keeps the size: the query it returns has at most as
+    many nodes as the document graphql-go's parser produced (exactly those of its operation and fragment
+    definitions) … *)
+Theorem parse_keeps_size :
+  forall (v : variant) (doc : gdoc) (vars : jargs) (q : query) (c : nat),
+    convert v doc vars = ROk (q, c) -> query_size q <= gdoc_size doc.
+Proof. exact convert_size. Qed.
+Print Assumptions parse_keeps_size.
+
+(** … hence, for every document, variable map, schema and root: after the repairs the conflict check of
+    Parse makes at most 1 + |doc| visits and PrepareQuery at most (1 + |schema|)^2 * (1 + |doc|) calls,
+    |doc| = nodes of the document, |schema| = types + fields (each with the depth of its List/NonNull
+    wrapping) + enum values + union members: an explicit polynomial in (input size x schema size). *)
+Theorem validation_cost_polynomial_in_input :
+  forall (doc : gdoc) (vars : jargs) (q : query) (c : nat) (sch : schema) (root : string) (n : nat),
+    convert repaired doc vars = ROk (q, c) -> prepare repaired sch root q = ROk n ->
+    c <= 1 + gdoc_size doc /\
+    n <= (1 + schema_size sch) * (1 + schema_size sch) * (1 + gdoc_size doc).
+Proof. exact validation_cost_explicit. Qed.
+Print Assumptions validation_cost_polynomial_in_input.
 
 (** … and Flatten (run by the executor on every selection set, with the executor's own budget): it marks
     a fragment's selection set before walking it and never walks a marked one again, so one call makes
@@ -166,3 +187,7 @@ Proof. eexists; eexists; reflexivity. Qed.
 Example cancelled_before_first_run_returns_when_repaired :
   exists s, run true init [Cancel; RunnerSelect; HandlerWake; HandlerStop] = Some s /\ hd s = HReturned.
 Proof. eexists; split; reflexivity. Qed.
+Example bomb_doc_within_the_explicit_bound :
+  gdoc_size (bomb_doc unary 5) = 19 /\ query_size (bquery unary 5) = 18 /\
+  exists c, convert repaired (bomb_doc unary 5) [] = ROk (bquery unary 5, c) /\ c <= 1 + 19.
+Proof. split; [reflexivity|]. split; [reflexivity|]. eexists. split; [reflexivity|]. vm_compute. repeat constructor. Qed.
